@@ -565,16 +565,21 @@ impl Cepoch {
         obs.insert("_stale_wrote".into(), json!(stale_wrote));
         obs.insert("_reads".into(), json!(new_reads));
         obs.insert("_slot".into(), json!(stub.slot_summary().map(|(e, v, p)| json!([e, v, phase_str(p)]))));
+        let mut pending_panics: Vec<String> = vec![];
         if let Some(life) = c.life.as_ref() {
             obs.insert("queued".into(), json!(life.manager.queued().next().0));
             let mut done = vec![];
             let mut how = vec![];
+            let mut panicked: Vec<String> = vec![];
             for (e, inst) in &life.insts {
                 if let Mode::Run { done: d, .. } = &inst.mode {
                     if let Some(h) = d.lock().unwrap().as_ref() {
                         done.push(*e);
                         if h.starts_with("panic") && c.panics_seen.insert((life_id(life), *e)) {
                             out.count("instance_panicked_at_teardown");
+                            // the repo builds with panic = 'abort': a panic of the consensus component kills the node
+                            // (property C10; not in the scope of C01 / C03, which borrow this harness too)
+                            panicked.push(h.clone());
                         }
                         how.push(json!([e, h]));
                     }
@@ -582,8 +587,14 @@ impl Cepoch {
             }
             obs.insert("done".into(), json!(done));
             obs.insert("_done_how".into(), json!(how));
+            for h in panicked {
+                pending_panics.push(h);
+            }
         }
         // ---- monitors
+        for h in pending_panics {
+            self.fail(out, "panic:bft_instance", &format!("the consensus component panicked (the node aborts): {h}"), op);
+        }
         let viol: Vec<(String, String)> = std::mem::take(&mut *stub.violations.lock().unwrap());
         for (site, what) in viol {
             self.fail(out, &site, &what, op);
